@@ -284,6 +284,44 @@ def _payload_of(rv, env):
     return None
 
 
+def fold_constant_switches(body):
+    """a switch on a local that has one definition in the whole body, a constant (a literal argument of an inlined helper:
+    `parse_atom_name(input, len, true)`), takes one branch only: it becomes a goto"""
+    defs = {}
+    for blk in body['blocks']:
+        for st in blk['s']:
+            if st.get('k') == '=' and not st['pl'].get('p'):
+                defs.setdefault(st['pl']['l'], []).append(st['rv'])
+        t = blk['t']
+        if t.get('k') == 'call' and t.get('dst') and not t['dst'].get('p'):
+            defs.setdefault(t['dst']['l'], []).append(None)
+    argc = body.get('argc', 0)
+
+    def const_of(l, depth=0):
+        if depth > 6 or 1 <= l <= argc:
+            return None
+        ds = defs.get(l, [])
+        if len(ds) != 1 or ds[0] is None:
+            return None
+        rv = ds[0]
+        if rv.get('k') == 'use' and rv['op'].get('k') == 'c' and isinstance(rv['op'].get('v'), int):
+            return rv['op']['v']
+        if rv.get('k') == 'use' and rv['op'].get('k') in ('cp', 'mv') and not rv['op']['pl'].get('p'):
+            return const_of(rv['op']['pl']['l'], depth + 1)
+        if rv.get('k') == 'un' and rv.get('op') == 'Not' and rv['a'].get('k') in ('cp', 'mv') and not rv['a']['pl'].get('p'):
+            v = const_of(rv['a']['pl']['l'], depth + 1)
+            return None if v is None else (0 if v else 1)
+        return None
+    for blk in body['blocks']:
+        t = blk['t']
+        if t.get('k') == 'switch' and t['d'].get('k') in ('cp', 'mv') and not t['d']['pl'].get('p'):
+            v = const_of(t['d']['pl']['l'])
+            if v is not None:
+                tgt = dict((cv, cb) for cv, cb in t['cases']).get(v, t['else'])
+                blk['t'] = {'k': 'goto', 't': tgt, 'ln': t.get('ln'), 'folded': True}
+    return body
+
+
 def thread_jumps(body, adts, max_rounds=6, max_new=400):
     """Jump threading for values that are constants on the way in: when a block sets a local to a constant (a bool, an enum
     literal such as Some(..)/None/Ok/Err) and control then runs through straight-line blocks into a switch on that local (or on its
@@ -486,7 +524,7 @@ def thread_jumps(body, adts, max_rounds=6, max_new=400):
 def normalise(F):
     """F.bodies after inlining every function that is not in the known set; returns the list of inlined helpers"""
     known = load_known()
-    if known is None:
+    if known is None or os.environ.get('VERIF_NO_INLINE') == '1':
         return []
     newset = new_functions(F, known)
     if not newset:
@@ -505,6 +543,7 @@ def normalise(F):
         if b.get('crate') in WS and coros and p not in coros:
             nb_ = inline_awaits(F, nb_, coros)
         if nb_ is not b:
+            nb_ = fold_constant_switches(nb_)
             nb_ = thread_jumps(nb_, F.adts)
         out[p] = nb_
     # closures of inlined helpers live on under the caller's name too
